@@ -198,6 +198,7 @@ func c19DNS(c *mon.Ctx, r *gen.Rand) {
 			overlapMiss, hits, misses, fails := 0, 0, 0, 0
 			type iv struct{ call, ret int64 }
 			missIv := map[string][]iv{}
+			freshIDs := map[string]bool{}
 			for _, rs := range recs {
 				for _, rc := range rs {
 					ops = append(ops, rc.op)
@@ -214,6 +215,15 @@ func c19DNS(c *mon.Ctx, r *gen.Rand) {
 						misses++
 						h := rc.op.Input.(dnsIn).host
 						missIv[h] = append(missIv[h], iv{rc.op.Call, rc.op.Return})
+						// an answer that is not from the cache is what the resolver produced during this very call: its entry
+						// expires a lifetime after that, and the (unique) address was never handed out before
+						if !rc.callAbs.Before(time.Unix(0, rc.expires)) {
+							c.Failf("dns:entry-served-after-expiry", "lookup(%s) returned, as a fresh answer, an entry that had expired %v before the call", h, rc.callAbs.Sub(time.Unix(0, rc.expires)))
+						}
+						if freshIDs[fmt.Sprint(h, "#", o.id)] {
+							c.Failf("dns:fresh-answer-is-an-old-address", "lookup(%s) returned as a fresh answer the address #%d that an earlier lookup had already been given\n%s", h, o.id, describeOps(ops))
+						}
+						freshIDs[fmt.Sprint(h, "#", o.id)] = true
 					}
 				}
 			}
@@ -315,6 +325,30 @@ func goroutinesInDNSCache() (inCache, parkedOnMutex int, stacks string) {
 		if strings.Contains(head, "sync.Mutex.Lock") || strings.Contains(head, "semacquire") {
 			parkedOnMutex++
 			stacks += g + "\n\n"
+		}
+	}
+	return
+}
+
+// goroutinesInFetchKeys reports the goroutines with a DirectKeyFetcher frame on their stack: how many there are, how
+// many are parked on a channel operation or a wait group, and how many are inside the scripted key client.
+func goroutinesInFetchKeys() (in, parked, inClient int, stacks string) {
+	buf := make([]byte, 1<<22)
+	buf = buf[:runtime.Stack(buf, true)]
+	for _, g := range strings.Split(string(buf), "\n\n") {
+		if !strings.Contains(g, "gomatrixserverlib.(*DirectKeyFetcher)") {
+			continue
+		}
+		in++
+		if strings.Contains(g, "concKeyClient") {
+			inClient++
+		}
+		head, _, _ := strings.Cut(g, "\n")
+		if strings.Contains(head, "chan send") || strings.Contains(head, "chan receive") || strings.Contains(head, "select") || strings.Contains(head, "semacquire") || strings.Contains(head, "sync.WaitGroup.Wait") {
+			parked++
+			if len(stacks) < 6000 {
+				stacks += g + "\n\n"
+			}
 		}
 	}
 	return
@@ -631,9 +665,17 @@ func c19KeyRing(c *mon.Ctx, r *gen.Rand) {
 			go func() { res, err = f.FetchKeys(context.Background(), reqs); close(doneCh) }()
 			select {
 			case <-doneCh:
-			case <-time.After(60 * time.Second):
-				c.Count("fetchkeys_no_progress_within_60s")
-				c.Floor("fetchkeys_completed", 1<<40) // forces the run inconclusive: bounded progress not observed
+			case <-time.After(30 * time.Second):
+				// the scripted client answers at once: decide on the goroutines' state, not on the clock. If every goroutine
+				// of the fetcher is parked on a channel / wait group and none is inside the key client, nothing can wake them.
+				in, parked, inClient, stacks := goroutinesInFetchKeys()
+				if in > 0 && parked == in && inClient == 0 {
+					c.Failf("fetchkeys:deadlock", "FetchKeys over %d servers: all %d goroutine(s) of the fetcher are parked on channel operations and none is talking to a server\n%s", nf, in, stacks)
+				} else {
+					c.Count("fetchkeys_no_progress_within_30s")
+					c.Floor("fetchkeys_watchdog_never_fired", 1) // never counted: the run is inconclusive, bounded progress was not observed
+					c.Note("FetchKeys unfinished after 30 s without a provable deadlock (%d in fetcher, %d parked, %d in client)", in, parked, inClient)
+				}
 				return
 			}
 			c.Count("fetchkeys_completed")
